@@ -30,14 +30,22 @@ PID = "C20"
 RULE = (
     "cases: (method spec, pool of 3-5 decision matrices of varying shape incl. same-shape/different-values pairs and "
     "out-of-domain members [negative / zero / NaN cells, all-minimise objectives, missing filter criteria, a single row, "
-    "non-matrix arguments] that make calls raise, a history of 2-8 pool members, a probe member, 2-4 probe positions); one "
+    "non-matrix arguments] that make calls raise, and - always for the methods whose parameters name criteria [the filters, "
+    "pipelines holding one], 60% otherwise - a pair of matrices with the SAME criterion / alternative names at DIFFERENT "
+    "positions [the same problem with columns and rows rotated / shuffled, the same numbers with the names rotated, a new "
+    "criterion in front]; the probe is then one of the pair and its partner precedes the last probe; a history of 2-8 pool "
+    "members, a probe member, 2-4 probe positions); one "
     "object runs the whole sequence, a twin runs it again, fresh objects give the reference output of every member. "
     "Specs: WSM, WPM, TOPSIS x5 metrics, RatioMOORA, RefPointMOORA, FMF, MultiMOORA, ELECTRE1/2 (default and random "
     "thresholds), SIMUS (rank_by 1,2; small matrices); StandarScaler, MinMaxScaler, MaxAbsScaler, MaxScaler, VectorScaler, "
     "SumScaler (all targets and options), CenitDistanceMatrixScaler, CenitDistance; NegateMinimize, InvertMinimize, "
     "MinimizeToMaximize; EqualWeighter, StdWeighter, EntropyWeighter, CRITIC/Critic (pearson, spearman, scale); Filter "
     "(callables), FilterGT/GE/LT/LE/EQ/NE, FilterIn/NotIn, FilterNonDominated; SimpleImputer (4 strategies), "
-    "IterativeImputer (seeded, also sample_posterior / random order), KNNImputer; PushNegatives, AddValueToZero; pipelines "
+    "IterativeImputer (seeded, also sample_posterior / random order), KNNImputer; PushNegatives, AddValueToZero; in EVERY round "
+    "of specs (>= 3 rounds in the quick tier) every method that takes a seed in parameterisations that consume random numbers at "
+    "each call: IterativeImputer(random_state=int) with sample_posterior, with imputation_order='random', with both, alone and "
+    "as the first step of an evaluate and of a transform pipeline, on matrices with NaN in >= 2 criteria, probe accepted and at "
+    ">= 3 positions (first call, middle, last call); pipelines "
     "(evaluate and transform) of 1-3 transformers + a decision maker; classes made by mkagg / mktransformer (with and "
     "without hyper-parameters); RankInvariantChecker (fixed seed, repeat 1-2, both strategies) over TOPSIS / RatioMOORA / a "
     "pipeline.  Thorough adds, per spec, ALL sequences of length <= 4 over a pool of 3 matrices (one refused).  "
@@ -277,9 +285,42 @@ def random_user_spec(rng):
     return {"k": "user", "cls": cls, "kw": kw}
 
 
+IMPUTERS = ("SimpleImputer", "IterativeImputer", "KNNImputer")
+# IterativeImputer configurations in which scikit-learn really draws from the generator made of `random_state`
+DRAWING = [{"sample_posterior": True}, {"imputation_order": "random"},
+           {"sample_posterior": True, "imputation_order": "random", "max_iter": 3}]
+
+
+def _draws(spec):
+    """does this spec hold a method that takes a seed AND consumes random numbers when called?"""
+    k = spec["k"]
+    if k == "ric":
+        return True
+    if k == "pipe":
+        return any(_draws(s) for s in spec["steps"])
+    if k == "tr" and spec["cls"] == "IterativeImputer":
+        kw = spec.get("kw", {})
+        return bool(kw.get("sample_posterior")) or kw.get("imputation_order") == "random"
+    return False
+
+
+def seeded_specs(rng):
+    """every method that takes a `random_state`, with an integer seed, in a parameterisation that really consumes random
+    numbers at every call: alone and as a step of a pipeline (RankInvariantChecker always draws its noise: random_ric_spec)"""
+    def imp(kw):
+        return {"k": "tr", "cls": "IterativeImputer", "kw": {"random_state": rng.randint(0, 2 ** 31 - 1), **kw}}
+
+    out = [imp(kw) for kw in DRAWING]
+    out.append({"k": "pipe", "steps": [imp(rng.choice(DRAWING)), {"k": "agg", "spec": {"name": "TOPSIS", "metric": "euclidean"}}],
+                "op": "evaluate"})
+    out.append({"k": "pipe", "steps": [imp(rng.choice(DRAWING)), random_tr_spec(rng, rng.choice(["VectorScaler", "MaxAbsScaler"])),
+                                       {"k": "agg", "spec": {"name": "RatioMOORA"}}], "op": "transform"})
+    return out
+
+
 def spec_round(rng):
     """one spec of every class / variant (a full round); shuffled"""
-    out = []
+    out = seeded_specs(rng)
     for name in AGG_NAMES:
         out.append({"k": "agg", "spec": M.random_spec(rng, [name])})
     for m in M.TOPSIS_METRICS:
@@ -321,6 +362,10 @@ def in_domain(rng, spec, m=None, n=None):
     if fam == "rank_reversal":
         # two equal rows leave the checker no room to worsen one of them (refused since fix F8; an endless loop before it)
         kw.update(ties=0.0, min_n=2)
+    pipe_imputer = fam == "pipeline" and any(s.get("cls") in IMPUTERS for s in spec["steps"])
+    if pipe_imputer:
+        kw["min_m"] = 3
+        kw["min_n"] = 2
     if m:
         kw["m"] = m
     if n:
@@ -335,12 +380,17 @@ def in_domain(rng, spec, m=None, n=None):
         mc = G.dm_case(rng, positive=fam not in ("push", "inverter") or rng.random() < 0.5, **kw)
     if fam == "filter" or (fam == "pipeline" and rng.random() < 0.5):
         mc["criteria"] = CRITS[: len(mc["criteria"])]
-    if fam == "imputer" or (fam == "pipeline" and any(s.get("cls") == "SimpleImputer" for s in spec["steps"])):
+    if fam == "imputer" or pipe_imputer:
         rows, cols = len(mc["matrix"]), len(mc["matrix"][0])
         for _ in range(rng.randint(1, max(1, rows * cols // 4))):
             i, j = rng.randrange(rows), rng.randrange(cols)
             if sum(1 for r in mc["matrix"] if r[j] is not None) > 2:
                 mc["matrix"][i][j] = None
+        if fam != "imputer" or _draws(spec):
+            # an imputer that draws random numbers needs something to impute, in two criteria for a random ORDER to exist
+            for j in rng.sample(range(cols), min(2, cols)):
+                if all(r[j] is not None for r in mc["matrix"]) and rows > 2:
+                    mc["matrix"][rng.randrange(rows)][j] = None
     return mc
 
 
@@ -376,7 +426,68 @@ def out_of_domain(rng, spec):
     return mc
 
 
-def make_pool(rng, spec, size, ood_rate=0.3):
+def _moved(rng, k):
+    """a permutation of range(k) that is not the identity (k >= 2): a rotation (every position shifts) or a shuffle"""
+    if k < 2:
+        return list(range(k))
+    if rng.random() < 0.5:
+        r = rng.randrange(1, k)
+        return [(i + r) % k for i in range(k)]
+    while True:
+        p = list(range(k))
+        rng.shuffle(p)
+        if p != list(range(k)):
+            return p
+
+
+def same_labels_elsewhere(rng, mc, wide_ok=True):
+    """a matrix that carries the SAME criterion and alternative names as `mc` at DIFFERENT positions:
+      permute  the same problem listed in another order (every name keeps its data, objective and weight);
+      relabel  the same numbers, the names attached to other columns / rows;
+      shifted  a new criterion in front: every name one column further (another shape).
+    Whatever a method remembers about an earlier matrix under a name (a column position, a fitted value) is wrong for this one."""
+    out = {k: (list(v) if isinstance(v, list) else v) for k, v in mc.items()}
+    mx = [list(r) for r in mc["matrix"]]
+    rows, cols = len(mx), len(mx[0])
+    how = rng.choice(["permute", "permute", "relabel", "shifted" if wide_ok else "permute"])
+    if how == "permute":
+        tau = _moved(rng, cols)
+        sg = _moved(rng, rows) if rng.random() < 0.7 else list(range(rows))
+        out["matrix"] = [[mx[i][j] for j in tau] for i in sg]
+        for key in ("objectives", "weights", "criteria"):
+            out[key] = [mc[key][j] for j in tau]
+        out["alternatives"] = [mc["alternatives"][i] for i in sg]
+    elif how == "relabel":
+        tau, sg = _moved(rng, cols), _moved(rng, rows)
+        out["matrix"] = mx
+        out["criteria"] = [mc["criteria"][j] for j in tau]
+        out["alternatives"] = [mc["alternatives"][i] for i in sg]
+    else:
+        fam = mc.get("family", "dyadic")
+        pos = all(v is None or v > 0 for r in mx for v in r)
+        out["matrix"] = [[G.value(rng, fam, pos)] + r for r in mx]
+        out["objectives"] = [rng.choice(list(mc["objectives"]))] + list(mc["objectives"])
+        out["weights"] = [rng.choice(list(mc["weights"]))] + list(mc["weights"])
+        out["criteria"] = [next(c for c in ["X0", "X1", "X2", "X3", "X4", "X5", "X6"] if c not in mc["criteria"])] + list(mc["criteria"])
+    out["pair"] = "b:" + how
+    return out
+
+
+def make_pool(rng, spec, size, ood_rate=0.3, pair_rate=0.6):
+    pool = _make_pool(rng, spec, size, ood_rate)
+    # a pair with identical labels at different positions; always for the methods whose parameters name criteria
+    fam = spec_family(spec)
+    names_criteria = fam == "filter" or (fam == "pipeline" and any(TR.get(s.get("cls"), ("", ""))[1] == "filter" for s in spec["steps"]))
+    good = [p for p in pool if "ood" not in p and "garbage" not in p and len(p["matrix"][0]) >= 2]
+    if good and (names_criteria or rng.random() < pair_rate):
+        a = rng.choice(good)
+        a["pair"] = "a"
+        small = _is_simus(spec) or fam == "rank_reversal"
+        pool.insert(rng.randrange(len(pool) + 1), same_labels_elsewhere(rng, a, wide_ok=not small))
+    return pool
+
+
+def _make_pool(rng, spec, size, ood_rate=0.3):
     first = in_domain(rng, spec)
     pool = [first]
     # same shape, different values: a memo keyed by shape (or a fitted estimator reused) shows here
@@ -691,6 +802,24 @@ def gen_hist_case(rng, spec):
     positions = sorted(rng.sample(range(len(hist) + 1), rng.randint(2, min(4, len(hist) + 1))))
     if rng.random() < 0.5 and 0 not in positions:
         positions[0] = 0  # the probe as the very first call: what a fresh object returns
+    positions = sorted(set(positions))
+    pair = [i for i, p in enumerate(pool) if "pair" in p]
+    if len(pair) == 2 and rng.random() < 0.8:
+        # the probe is one matrix of the pair "same labels, other positions"; its partner is processed before the last probe
+        probe = rng.choice(pair)
+        partner = pair[0] if probe == pair[1] else pair[1]
+        if len(positions) < 2:
+            positions = [0, len(hist)]
+        if partner not in hist[: positions[-1]]:
+            hist[rng.randrange(positions[-1])] = partner
+    if _draws(spec):
+        # a generator kept on the object advances with every successful call: the probe accepted, >= 3 positions, one after
+        # at least two other calls
+        if probe not in good:
+            probe = rng.choice(good)
+        if len(hist) < 3:
+            hist = hist + [rng.choice(good) for _ in range(3 - len(hist))]
+        positions = sorted(set(positions) | {0, len(hist)} | {rng.randrange(1, len(hist))})
     return {"kind": "hist", "spec": spec, "pool": pool, "hist": hist, "probe": probe, "positions": sorted(set(positions)),
             "reuse_dm": rng.random() < 0.5}
 
